@@ -67,6 +67,23 @@ Fixpoint segs_go (fuel : nat) (s : list N) : option (list seg * list N) :=
   end.
 Definition segs_of (s : list N) : option (list seg * list N) := segs_go (S (length s)) s.
 
+(* the lexer meets no unclosed string literal (its "Unclosed string literal."
+   branch, the KErrToken step, is never taken) *)
+Fixpoint no_unclosed_go (fuel : nat) (s : list N) : bool :=
+  match fuel with
+  | O => false
+  | S f =>
+    match s with
+    | [] => true
+    | _ =>
+      match kstep s with
+      | None => false
+      | Some (k, t) => negb (kind_eqb k KErrToken) && no_unclosed_go f (skipn (length t) s)
+      end
+    end
+  end.
+Definition no_unclosed (s : list N) : bool := no_unclosed_go (S (length s)) s.
+
 Fixpoint render (l : list seg) (tr : list N) : list N :=
   match l with
   | [] => tr
